@@ -88,6 +88,7 @@ def runCase (c : Case) : String :=
   let evl := c.lines.filter (fun l => !(l.startsWith "monitor ") && !(l.startsWith "stat "))
   let parsed := evl.map parseLine
   if parsed.any Option.isNone then s!"case {c.id} reject 0 malformed-line" else
+  if evl.length > 500000 then s!"case {c.id} reject 0 [log too long: {evl.length} lines] ; monitors FAIL: run ended with status '{c.status}'" else
   let ls := parsed.filterMap id
   let m := ls.foldl monStep {}
   let allMon := mons ++ m.fails.reverse.take 5 ++ (if c.status == "ok" then [] else [s!"run ended with status '{c.status}'"])
